@@ -13,14 +13,22 @@ enum K {
     ToolStarted(u64),
     ToolStdout(u64, String),
     ToolStderr(u64, String),
-    ToolEnded(u64),
+    /// the lists are artifact ids (see `art_json`)
+    ToolEnded(u64, Vec<u64>),
     ToolFailed(u64),
-    TaskSpawned(u64),
-    TaskStatus(u64, u64),
-    TaskDelta(u64, u64, String),
+    TaskSpawned(u64, Vec<u64>),
+    TaskStatus(u64, u64, Vec<u64>),
+    TaskDelta(u64, u64, String, Vec<u64>),
     CheckpointFailed,
-    /// (invalid_json, which error list, which response-error list) — see `err_list`
-    ProviderEvent(bool, u64, u64),
+    /// (invalid_json, which error list, which response-error list, provider is "openresponses") — see `err_list`
+    ProviderEvent(bool, u64, u64, bool),
+    ContextSelecting,
+    ContextCompiled(u64),
+    CkptCreated(u64),
+    OrRequest(u64),
+    OrRequestStarted,
+    OrResponseHeaders,
+    OrResponseFirstByte,
     JobSpawned(u64),
     JobEnded(u64),
     Other(u64),
@@ -61,9 +69,9 @@ fn to_event(e: &Ev) -> Event {
         K::ToolStarted(i) => EventKind::ToolStarted { tool_id: tid(*i), name: "bash".into(), args: json!({}), timeout_ms: None },
         K::ToolStdout(i, c) => EventKind::ToolStdout { tool_id: tid(*i), chunk: c.clone() },
         K::ToolStderr(i, c) => EventKind::ToolStderr { tool_id: tid(*i), chunk: c.clone() },
-        K::ToolEnded(i) => EventKind::ToolEnded { tool_id: tid(*i), exit_code: 0, duration_ms: 1, artifacts: None },
+        K::ToolEnded(i, a) => EventKind::ToolEnded { tool_id: tid(*i), exit_code: 0, duration_ms: 1, artifacts: art_json(a, e.ident) },
         K::ToolFailed(i) => EventKind::ToolFailed { tool_id: tid(*i), error: "boom".into() },
-        K::TaskSpawned(i) => EventKind::ToolTaskSpawned {
+        K::TaskSpawned(i, a) => EventKind::ToolTaskSpawned {
             task_id: tid(*i),
             tool_name: "bash".into(),
             args: json!({}),
@@ -71,18 +79,18 @@ fn to_event(e: &Ev) -> Event {
             title: None,
             execution_mode: ToolTaskExecutionMode::Pipes,
             origin_session_id: None,
-            artifacts: None,
+            artifacts: art_json(a, e.ident),
         },
-        K::TaskStatus(i, s) => EventKind::ToolTaskStatus {
+        K::TaskStatus(i, s, a) => EventKind::ToolTaskStatus {
             task_id: tid(*i),
             status: task_status(*s),
             exit_code: None,
             started_at_ms: None,
             ended_at_ms: None,
-            artifacts: None,
+            artifacts: art_json(a, e.ident),
             error: None,
         },
-        K::TaskDelta(i, st, c) => EventKind::ToolTaskOutputDelta {
+        K::TaskDelta(i, st, c, a) => EventKind::ToolTaskOutputDelta {
             task_id: tid(*i),
             stream: match st {
                 0 => ToolTaskStream::Stdout,
@@ -90,11 +98,18 @@ fn to_event(e: &Ev) -> Event {
                 _ => ToolTaskStream::Pty,
             },
             chunk: c.clone(),
-            artifacts: None,
+            artifacts: art_json(a, e.ident),
         },
         K::CheckpointFailed => EventKind::CheckpointFailed { action: rip_kernel::CheckpointAction::Create, error: "e".into() },
-        K::ProviderEvent(a, b, c) => EventKind::ProviderEvent {
-            provider: "openresponses".into(),
+        K::ContextSelecting => EventKind::ContinuityContextSelectionDecided { run_session_id: "r".into(), message_id: "m".into(), compiler_id: "c".into(), compiler_strategy: "s".into(), limits: json!({}), compaction_checkpoint: None, compaction_checkpoints: vec![], resets: vec![], reason: None, actor_id: "a".into(), origin: "o".into() },
+        K::ContextCompiled(x) => EventKind::ContinuityContextCompiled { run_session_id: "r".into(), bundle_artifact_id: art_id(*x), compiler_id: "c".into(), compiler_strategy: "s".into(), from_seq: 0, from_message_id: None, actor_id: "a".into(), origin: "o".into() },
+        K::CkptCreated(x) => EventKind::ContinuityCompactionCheckpointCreated { checkpoint_id: "c".into(), cut_rule_id: "r".into(), summary_kind: "k".into(), summary_artifact_id: art_id(*x), from_seq: 0, from_message_id: None, to_seq: 1, to_message_id: None, actor_id: "a".into(), origin: "o".into() },
+        K::OrRequest(x) => EventKind::OpenResponsesRequest { endpoint: "e".into(), model: None, request_index: e.ident, kind: "k".into(), body_artifact_id: art_id(*x), body_bytes: 1, total_bytes: 1, truncated: false },
+        K::OrRequestStarted => EventKind::OpenResponsesRequestStarted { endpoint: "e".into(), model: None, request_index: e.ident % 2, kind: "k".into() },
+        K::OrResponseHeaders => EventKind::OpenResponsesResponseHeaders { request_index: e.ident % 2, status: 200, request_id: None, content_type: None },
+        K::OrResponseFirstByte => EventKind::OpenResponsesResponseFirstByte { request_index: e.ident % 2 },
+        K::ProviderEvent(a, b, c, is_or) => EventKind::ProviderEvent {
+            provider: if *is_or { "openresponses".into() } else { "other".into() },
             status: if *a { ProviderEventStatus::InvalidJson } else { ProviderEventStatus::Event },
             event_name: None,
             data: None,
@@ -109,19 +124,42 @@ fn to_event(e: &Ev) -> Event {
     Event { id: format!("{}", e.ident), session_id: format!("s{}", e.ident % 3), timestamp_ms: e.ts, seq: e.seq, kind }
 }
 
+/// An artifact id as the log writes it: 64 hex digits (numeric order = string order, so BTreeSet order is the model's).
+fn art_id(n: u64) -> String {
+    format!("{n:064x}")
+}
+fn art_num(s: &str) -> u64 {
+    u64::from_str_radix(&s[48..], 16).unwrap()
+}
+/// An `artifacts` JSON value that carries exactly the ids `a` (anywhere: member values, arrays, nested) between
+/// things that are no artifact ids (63 / 65 hex digits, 64 non-hex characters, numbers, null, keys that look like ids).
+fn art_json(a: &[u64], salt: u64) -> Option<serde_json::Value> {
+    if a.is_empty() && salt % 3 == 0 {
+        return None;
+    }
+    let ids: Vec<String> = a.iter().map(|n| art_id(*n)).collect();
+    let decoys = json!(["f".repeat(63), "0".repeat(65), "g".repeat(64), "é".repeat(32), 7, null, true, {art_id(5): 1}]);
+    Some(match salt % 4 {
+        0 => json!({"ids": ids, "x": decoys}),
+        1 => json!([decoys, ids]),
+        2 => json!({"stdout": {"artifact_id": ids.first(), "rest": ids.iter().skip(1).collect::<Vec<_>>()}, "n": 3, "d": decoys}),
+        _ => json!({"a": {"b": {"c": [[ids]]}}, "s": "plain"}),
+    })
+}
+
 fn other_kind(v: u64) -> EventKind {
     let t = |n: u64| -> String { ["", "a", "héllo wörld €", "😀😀😀😀😀😀😀😀😀😀😀😀😀😀😀😀😀😀😀😀😀😀😀😀😀😀😀😀😀😀😀😀😀😀😀😀😀😀😀😀😀😀", "line1\nline2\ttab", "\u{0}\u{1b}[31m"][(n % 6) as usize].to_string() };
     match v % 26 {
         0 => EventKind::ToolTaskCancelRequested { task_id: tid(1), reason: t(v / 26) },
         1 => EventKind::CheckpointRewound { checkpoint_id: t(v / 26), label: t(v / 26 + 1), files: vec![t(2), t(3)] },
         2 => EventKind::ContinuityMessageAppended { actor_id: "a".into(), origin: "o".into(), content: t(v / 26) },
-        3 => EventKind::OpenResponsesResponseFirstByte { request_index: u64::MAX },
+        3 => EventKind::ToolTaskResized { task_id: tid(1), rows: 0, cols: u16::MAX },
         4 => EventKind::ContinuityCreated { workspace: t(v / 26), title: Some(t(v / 26 + 2)) },
         5 => EventKind::ContinuityRunSpawned { run_session_id: t(3), message_id: t(2), actor_id: None, origin: Some(t(1)) },
-        6 => EventKind::ContinuityContextSelectionDecided { run_session_id: t(1), message_id: t(2), compiler_id: t(3), compiler_strategy: t(v / 26), limits: json!({"a": [1, 2, {"b": null}]}), compaction_checkpoint: None, compaction_checkpoints: vec![], resets: vec![], reason: Some(json!("x")), actor_id: t(1), origin: t(1) },
-        7 => EventKind::ContinuityContextCompiled { run_session_id: t(1), bundle_artifact_id: "a".repeat(64), compiler_id: t(2), compiler_strategy: t(3), from_seq: u64::MAX, from_message_id: None, actor_id: t(1), origin: t(1) },
+        6 if false => EventKind::ContinuityContextSelectionDecided { run_session_id: t(1), message_id: t(2), compiler_id: t(3), compiler_strategy: t(v / 26), limits: json!({"a": [1, 2, {"b": null}]}), compaction_checkpoint: None, compaction_checkpoints: vec![], resets: vec![], reason: Some(json!("x")), actor_id: t(1), origin: t(1) },
+        7 if false => EventKind::ContinuityContextCompiled { run_session_id: t(1), bundle_artifact_id: "a".repeat(64), compiler_id: t(2), compiler_strategy: t(3), from_seq: u64::MAX, from_message_id: None, actor_id: t(1), origin: t(1) },
         8 => EventKind::ContinuityProviderCursorUpdated { provider: t(2), endpoint: None, model: Some(t(3)), cursor: Some(json!({"k": t(3)})), action: t(1), reason: None, run_session_id: None, actor_id: t(1), origin: t(1) },
-        9 => EventKind::ContinuityCompactionCheckpointCreated { checkpoint_id: t(1), cut_rule_id: t(2), summary_kind: t(3), summary_artifact_id: "b".repeat(64), from_seq: 0, from_message_id: None, to_seq: u64::MAX, to_message_id: Some(t(3)), actor_id: t(1), origin: t(1) },
+        9 if false => EventKind::ContinuityCompactionCheckpointCreated { checkpoint_id: t(1), cut_rule_id: t(2), summary_kind: t(3), summary_artifact_id: "b".repeat(64), from_seq: 0, from_message_id: None, to_seq: u64::MAX, to_message_id: Some(t(3)), actor_id: t(1), origin: t(1) },
         10 => EventKind::ContinuityCompactionAutoScheduleDecided { decision_id: t(1), policy_id: t(2), decision: t(3), execute: true, stride_messages: 0, max_new_checkpoints: u32::MAX, block_on_inflight: false, message_count: u64::MAX, cut_rule_id: t(1), planned: vec![rip_kernel::CompactionPlannedCutPoint { target_message_ordinal: 1, to_seq: 2, to_message_id: t(3) }], job_id: None, job_kind: None, reason: None, actor_id: t(1), origin: t(1) },
         11 => EventKind::ToolTaskStdinWritten { task_id: tid(v / 26 % 3), chunk_b64: t(v / 26) },
         12 => EventKind::ToolTaskSignalled { task_id: tid(v / 26 % 3), signal: t(v / 26) },
@@ -129,15 +167,15 @@ fn other_kind(v: u64) -> EventKind {
         14 => EventKind::ContinuityToolSideEffects { run_session_id: t(1), tool_id: t(2), tool_name: t(3), affected_paths: Some(vec![t(3), t(2)]), checkpoint_id: None, actor_id: t(1), origin: t(1) },
         15 => EventKind::ContinuityBranched { parent_thread_id: t(3), parent_seq: u64::MAX, parent_message_id: None, actor_id: t(1), origin: t(1) },
         16 => EventKind::ContinuityHandoffCreated { from_thread_id: t(3), from_seq: 0, from_message_id: None, summary_artifact_id: None, summary_markdown: Some(t(3)), actor_id: t(1), origin: t(1) },
-        17 => EventKind::OpenResponsesRequest { endpoint: t(3), model: None, request_index: 0, kind: t(1), body_artifact_id: "c".repeat(64), body_bytes: u64::MAX, total_bytes: 0, truncated: true },
-        18 => EventKind::OpenResponsesRequestStarted { endpoint: t(3), model: Some(t(2)), request_index: 1, kind: t(1) },
-        19 => EventKind::OpenResponsesResponseHeaders { request_index: 0, status: 599, request_id: Some(t(3)), content_type: None },
+        17 if false => EventKind::OpenResponsesRequest { endpoint: t(3), model: None, request_index: 0, kind: t(1), body_artifact_id: "c".repeat(64), body_bytes: u64::MAX, total_bytes: 0, truncated: true },
+        18 if false => EventKind::OpenResponsesRequestStarted { endpoint: t(3), model: Some(t(2)), request_index: 1, kind: t(1) },
+        19 if false => EventKind::OpenResponsesResponseHeaders { request_index: 0, status: 599, request_id: Some(t(3)), content_type: None },
         20 => EventKind::CheckpointCreated { checkpoint_id: t(1), label: t(3), created_at_ms: u64::MAX, files: vec![t(3)], auto: true, tool_name: Some(t(2)) },
         21 => EventKind::ToolTaskCancelled { task_id: tid(2), reason: t(3), wall_time_ms: Some(u64::MAX) },
         22 => EventKind::ToolTaskStdinWritten { task_id: tid(0), chunk_b64: t(3) },
         23 => EventKind::ToolTaskResized { task_id: tid(0), rows: u16::MAX, cols: 0 },
         24 => EventKind::ToolTaskSignalled { task_id: tid(0), signal: t(3) },
-        _ => EventKind::ToolEnded { tool_id: tid(7), exit_code: i32::MIN, duration_ms: u64::MAX, artifacts: Some(json!({"stdout": {"artifact_id": "d".repeat(64)}, "x": ["e".repeat(64), 3, null]})) },
+        _ => EventKind::ToolEnded { tool_id: tid(9999), exit_code: i32::MIN, duration_ms: u64::MAX, artifacts: Some(json!({"stdout": {"artifact_id": "d".repeat(64)}, "x": ["e".repeat(64), 3, null]})) },
     }
 }
 
@@ -149,13 +187,20 @@ fn coq_k(k: &K) -> String {
         K::ToolStarted(i) => format!("KToolStarted {i}"),
         K::ToolStdout(i, c) => format!("KToolStdout {i} {}", coq_str(c)),
         K::ToolStderr(i, c) => format!("KToolStderr {i} {}", coq_str(c)),
-        K::ToolEnded(i) => format!("KToolEnded {i}"),
+        K::ToolEnded(i, a) => format!("KToolEnded {i} {}", coq_list_n(a)),
         K::ToolFailed(i) => format!("KToolFailed {i}"),
-        K::TaskSpawned(i) => format!("KTaskSpawned {i}"),
-        K::TaskStatus(i, s) => format!("KTaskStatus {i} {s}"),
-        K::TaskDelta(i, st, c) => format!("KTaskDelta {i} {st} {}", coq_str(c)),
+        K::TaskSpawned(i, a) => format!("KTaskSpawned {i} {}", coq_list_n(a)),
+        K::TaskStatus(i, s, a) => format!("KTaskStatus {i} {s} {}", coq_list_n(a)),
+        K::TaskDelta(i, st, c, a) => format!("KTaskDelta {i} {st} {} {}", coq_str(c), coq_list_n(a)),
         K::CheckpointFailed => "KCheckpointFailed".into(),
-        K::ProviderEvent(a, b, c) => format!("KProviderEvent {} {} {}", coq_bool(*a), coq_bool(*b > 0), coq_bool(*c > 0)),
+        K::ProviderEvent(a, b, c, o) => format!("KProviderEvent {} {} {} {}", coq_bool(*a), coq_bool(*b > 0), coq_bool(*c > 0), coq_bool(*o)),
+        K::ContextSelecting => "KContextSelecting".into(),
+        K::ContextCompiled(x) => format!("KContextCompiled {x}"),
+        K::CkptCreated(x) => format!("KCkptCreated {x}"),
+        K::OrRequest(x) => format!("KOrRequest {x}"),
+        K::OrRequestStarted => "KOrRequestStarted".into(),
+        K::OrResponseHeaders => "KOrResponseHeaders".into(),
+        K::OrResponseFirstByte => "KOrResponseFirstByte".into(),
         K::JobSpawned(i) => format!("KJobSpawned {i}"),
         K::JobEnded(i) => format!("KJobEnded {i}"),
         K::Other(_) => "KOther".into(),
@@ -211,6 +256,7 @@ fn run_impl(c: &Case) -> Obs {
         });
         enc_str(&mut out, &t.stdout_preview);
         enc_str(&mut out, &t.stderr_preview);
+        enc_list(&mut out, &t.artifact_ids.iter().map(|s| art_num(s)).collect::<Vec<_>>());
         if t.stdout_preview.len() > 8192 || t.stderr_preview.len() > 8192 {
             fail = Some((format!("tool preview exceeds 8192 bytes for {id}"), "preview_unbounded".into()));
         }
@@ -228,6 +274,7 @@ fn run_impl(c: &Case) -> Obs {
         enc_str(&mut out, &t.stdout_preview);
         enc_str(&mut out, &t.stderr_preview);
         enc_str(&mut out, &t.pty_preview);
+        enc_list(&mut out, &t.artifact_ids.iter().map(|s| art_num(s)).collect::<Vec<_>>());
         if t.stdout_preview.len() > 8192 || t.stderr_preview.len() > 8192 || t.pty_preview.len() > 8192 {
             fail = Some((format!("task preview exceeds 8192 bytes for {id}"), "preview_unbounded".into()));
         }
@@ -240,6 +287,22 @@ fn run_impl(c: &Case) -> Obs {
             rip_tui::JobStatus::Ended { .. } => 1,
         });
     }
+    enc_list(&mut out, &st.artifacts.iter().map(|s| art_num(s)).collect::<Vec<_>>());
+    match &st.context {
+        None => out.push(0),
+        Some(c) => {
+            out.push(1);
+            out.push(match c.status {
+                rip_tui::ContextStatus::Selecting => 0,
+                rip_tui::ContextStatus::Compiled => 1,
+            });
+            enc_opt(&mut out, c.bundle_artifact_id.as_deref().map(art_num));
+        }
+    }
+    enc_opt(&mut out, st.openresponses_request_started_ms);
+    enc_opt(&mut out, st.openresponses_response_headers_ms);
+    enc_opt(&mut out, st.openresponses_response_first_byte_ms);
+    enc_opt(&mut out, st.openresponses_first_provider_event_ms);
     enc_opt(&mut out, st.start_ms);
     enc_opt(&mut out, st.first_output_ms);
     enc_opt(&mut out, st.end_ms);
@@ -262,12 +325,13 @@ fn run_impl(c: &Case) -> Obs {
         let mut tool_ids = BTreeSet::new();
         let mut task_ids = BTreeSet::new();
         let mut job_ids = BTreeSet::new();
+        let mut art_ids: BTreeSet<u64> = BTreeSet::new();
         for e in &c.evs {
             match &e.k {
                 K::ToolStarted(i) => {
                     tool_ids.insert(*i);
                 }
-                K::TaskSpawned(i) | K::TaskStatus(i, _) => {
+                K::TaskSpawned(i, _) | K::TaskStatus(i, _, _) => {
                     task_ids.insert(*i);
                 }
                 K::JobSpawned(i) | K::JobEnded(i) => {
@@ -275,6 +339,16 @@ fn run_impl(c: &Case) -> Obs {
                 }
                 _ => {}
             }
+            match &e.k {
+                K::ToolEnded(_, a) | K::TaskSpawned(_, a) | K::TaskStatus(_, _, a) | K::TaskDelta(_, _, _, a) => art_ids.extend(a.iter().copied()),
+                K::ContextCompiled(x) | K::CkptCreated(x) | K::OrRequest(x) => {
+                    art_ids.insert(*x);
+                }
+                _ => {}
+            }
+        }
+        if st.artifacts.len() > art_ids.len() || st.artifacts.iter().any(|s| !art_ids.contains(&art_num(s))) {
+            fail = Some((format!("the artifact set holds {} ids, the frames carried {} distinct ones", st.artifacts.len(), art_ids.len()), "artifacts_not_from_frames".into()));
         }
         if st.tools.len() > tool_ids.len() || st.tasks.len() > task_ids.len() || st.jobs.len() > job_ids.len() {
             fail = Some((format!("maps hold {}/{}/{} entries for {}/{}/{} distinct tool/task/job ids", st.tools.len(), st.tasks.len(), st.jobs.len(), tool_ids.len(), task_ids.len(), job_ids.len()), "map_entries_exceed_distinct_ids".into()));
@@ -362,13 +436,15 @@ fn draw(st: &TuiState, mode: rip_tui::RenderMode, w: u16, h: u16, ox: u16, oy: u
 /// Totality + determinism of the renderers (layout is not modelled): every overlay, both views,
 /// both modes, degenerate terminal sizes; every cell written lies inside the frame area.
 /// Returns a digest of everything rendered.
-fn render_all(c: &Case) -> Result<String, String> {
+fn render_all(c: &Case, rot: usize) -> Result<String, String> {
     use rip_tui::RenderMode;
     let mut st = state_of(c);
     let overlays = overlays_for(&st);
     let mut digest = Distinct::default();
     let mut acc = String::new();
-    for (w, h, ox, oy) in [(20u16, 8u16, 0u16, 0u16), (60, 20, 3, 2), (120, 40, 0, 0), (200, 60, 1, 1), (80, 3, 0, 0), (4, 20, 0, 0), (0, 0, 0, 0), (1, 1, 2, 2)] {
+    // the small and degenerate sizes on every pass, the three large ones in turn
+    let big = [(60u16, 20u16, 3u16, 2u16), (120, 40, 0, 0), (200, 60, 1, 1)][rot % 3];
+    for (w, h, ox, oy) in [(20u16, 8u16, 0u16, 0u16), big, (80, 3, 0, 0), (4, 20, 0, 0), (0, 0, 0, 0), (1, 1, 2, 2)] {
         for ov in &overlays {
             for raw in [false, true] {
                 for mode in [RenderMode::Json, RenderMode::Decoded] {
@@ -1056,20 +1132,28 @@ fn gen_case(r: &mut Rng, long: bool) -> Case {
             bigs += 1;
         }
         let id = r.below(idspace);
-        let k = match r.below(18) {
+        let arts = |r: &mut Rng| -> Vec<u64> { (0..*r.pick(&[0u64, 0, 1, 1, 2, 4])).map(|_| *r.pick(&[0u64, 1, 2, 3, 4, 5, 6, 255, 256, u64::MAX])).collect() };
+        let k = match r.below(25) {
             0 => K::SessionStarted(if r.chance(1, 3) { gen_ws(r) } else { gen_text(r, false) }),
             1 | 2 | 3 => K::OutputDelta(gen_text(r, false)),
             4 => K::SessionEnded,
             5 => K::ToolStarted(id),
             6 => K::ToolStdout(id, gen_text(r, big)),
             7 => K::ToolStderr(id, gen_text(r, big)),
-            8 => K::ToolEnded(id),
+            8 => K::ToolEnded(id, arts(r)),
             9 => K::ToolFailed(id),
-            10 => K::TaskSpawned(id),
-            11 => K::TaskStatus(id, r.below(5)),
-            12 => K::TaskDelta(id, r.below(3), gen_text(r, big)),
+            10 => K::TaskSpawned(id, arts(r)),
+            11 => K::TaskStatus(id, r.below(5), arts(r)),
+            12 => K::TaskDelta(id, r.below(3), gen_text(r, big), arts(r)),
             13 => K::CheckpointFailed,
-            14 => K::ProviderEvent(r.chance(1, 4), if r.chance(1, 3) { r.range(1, 4) } else { 0 }, if r.chance(1, 3) { r.range(1, 4) } else { 0 }),
+            14 => K::ProviderEvent(r.chance(1, 4), if r.chance(1, 3) { r.range(1, 4) } else { 0 }, if r.chance(1, 3) { r.range(1, 4) } else { 0 }, r.chance(3, 4)),
+            17 => K::ContextSelecting,
+            18 => K::ContextCompiled(*r.pick(&[0u64, 1, 2, 7, u64::MAX])),
+            19 => K::CkptCreated(*r.pick(&[0u64, 3, 8])),
+            20 => K::OrRequest(*r.pick(&[0u64, 4, 9])),
+            21 => K::OrRequestStarted,
+            22 => K::OrResponseHeaders,
+            23 => K::OrResponseFirstByte,
             15 => K::JobSpawned(id),
             16 => K::JobEnded(id),
             _ => K::Other(r.below(26 * 6)),
@@ -1147,7 +1231,7 @@ fn main() {
             let c3 = c.clone();
             res.oracle_checks += 1;
             res.bump("render_passes");
-            match std::panic::catch_unwind(move || (render_all(&c3), render_all(&c3))) {
+            match std::panic::catch_unwind(move || (render_all(&c3, i / 4), render_all(&c3, i / 4))) {
                 Err(_) => res.oracle_violations.push(OracleViolation { case_id: i as i64, what: "rip_tui::render panicked".into(), class: "render_panic".into(), replay: case_json(c) }),
                 Ok((Err(e), _)) | Ok((_, Err(e))) => res.oracle_violations.push(OracleViolation { case_id: i as i64, what: format!("rip_tui::render wrote outside its frame area: {e}"), class: "render_outside_area".into(), replay: case_json(c) }),
                 Ok((Ok(a1), Ok(a2))) => {
@@ -1169,7 +1253,7 @@ fn main() {
                 Ok(Ok(k)) => res.bump_by("render_sizes", k),
             }
         }
-        if have_rip && (i % 3 == 1 || i < 4) && c.evs.iter().all(|e| match &e.k { K::ToolStdout(_, s) | K::ToolStderr(_, s) | K::TaskDelta(_, _, s) => s.len() < 500, _ => true }) {
+        if have_rip && (i % 3 == 1 || i < 4) && c.evs.iter().all(|e| match &e.k { K::ToolStdout(_, s) | K::ToolStderr(_, s) | K::TaskDelta(_, _, s, _) => s.len() < 500, _ => true }) {
             streams.push((i as i64, c.evs.iter().map(|e| VLine::Frame(to_event(e), 0)).collect(), case_json(c)));
         }
         let c2 = c.clone();
@@ -1181,6 +1265,9 @@ fn main() {
         res.evaluations += 1;
         res.oracle_checks += 1;
         res.bump(&format!("max_frames={}", c.max_frames));
+        if c.evs.iter().any(|e| matches!(&e.k, K::ToolEnded(_, a) | K::TaskSpawned(_, a) | K::TaskStatus(_, _, a) | K::TaskDelta(_, _, _, a) if !a.is_empty())) {
+            res.bump("carries_artifact_ids");
+        }
         res.bump(&format!("events={}", match c.evs.len() { 0 => "0", 1..=5 => "1-5", 6..=14 => "6-14", _ => "15+" }));
         match got {
             Err(_) => {
